@@ -143,6 +143,10 @@ class FilePattern:
             return "literal text around {pep440_version} damaged"
         inner = text[len(self.prefix) : len(text) - len(self.suffix) if self.suffix else None]
         try:
+            pv.Version(new_version_text)
+        except pv.InvalidVersion:
+            return None  # the version itself is not PEP 440: {pep440_version} has no defined meaning (C15's scope)
+        try:
             if pv.Version(inner) != pv.Version(new_version_text):
                 return f"{inner!r} is not the PEP 440 form of {new_version_text!r}"
         except pv.InvalidVersion:
